@@ -54,7 +54,11 @@ def sweep(tier):
         for k in range(len(FIXED)):
             for op in OPS:
                 out.append({"fixed": True, "tamper": [direction, k, op],
-                            "reader": ("read", "consumer")[k % 2]})
+                            "reader": ("read", "consumer")[k % 2],
+                            "late_read": False})
+                out.append({"fixed": True, "tamper": [direction, k, op],
+                            "reader": ("read", "consumer")[(k + 1) % 2],
+                            "late_read": True})
     return out
 
 
@@ -220,6 +224,13 @@ def run_one(seed, tape, opts):
     if es is None or er is None or es.link is not er.link:
         raise HarnessError("setup: results are not two ends of one link")
     link = es.link
+    # transport variant: does the transport go on delivering what is already
+    # in flight after loseConnection() (legal for an ITransport, e.g. TLS or a
+    # wrapping protocol; plain TCP stops reading)? transit.Connection has its
+    # own 'hung up' guard for exactly that
+    if opts.get("late_read", tape.choose(3, "late_read") == 0):
+        sim.net.read_after_lose = True
+        sim.note("probe.transport_reads_after_loseConnection")
     # workload
     if opts.get("fixed"):
         recs = {"s2r": [tape.blob(n, i) for i, n in enumerate(FIXED)],
